@@ -25,7 +25,7 @@ func init() {
 			"a bar with zero TimeSig inherits the previous bar's signature at AddBar time (documented behaviour of AddBar)",
 			"per-track assignment in ToSMF1 (events of track number n on the n-th used track) is read as part of 'multi-track export'",
 		},
-		Require: []string{"note_offs_edited_in_exported_files", "songs", "bars_num_ge_8", "sig_changes", "notes_with_duration", "smf1_tracks", "compound_meters", "in_place_edits_between_exports", "shared_pattern_songs"},
+		Require: []string{"note_offs_edited_in_exported_files", "non_channel_events_in_bars", "songs", "bars_num_ge_8", "sig_changes", "notes_with_duration", "smf1_tracks", "compound_meters", "in_place_edits_between_exports", "shared_pattern_songs"},
 		Run:     runC20,
 	})
 }
@@ -187,6 +187,12 @@ func checkSongEdited(c *mon.Ctx, s *c20Song, editBar int, newSig [2]uint8) {
 	wantCh := map[int][]tickMsg{}
 	var wantAll []tickMsg
 	for _, e := range s.evs {
+		if e.msg[0] < 0x80 || e.msg[0] >= 0xF0 {
+			// tempo changes, texts, sysex inside a bar: exported somewhere, not compared; they must not
+			// disturb anything that is compared
+			c.Count("non_channel_events_in_bars", 1)
+			continue
+		}
 		st := starts[e.bar] + int64(e.pos)*t32
 		wantCh[e.track] = append(wantCh[e.track], tickMsg{st, string(e.msg)})
 		wantAll = append(wantAll, tickMsg{st, string(e.msg)})
@@ -497,6 +503,23 @@ func runC20(c *mon.Ctx) {
 		for k := 0; k < ne; k++ {
 			bar := r.Intn(nb)
 			s.evs = append(s.evs, genC20Event(r, bar, lens[bar], rem[bar]))
+		}
+		// a ritardando, a text, a sysex inside bars: non-channel events on tracks that also hold channel events
+		if len(s.evs) > 0 && r.P(1, 2) {
+			for k := r.Range(1, 4); k > 0; k-- {
+				host := s.evs[r.Intn(len(s.evs))]
+				bar := r.Intn(nb)
+				var m []byte
+				switch r.Intn(4) {
+				case 0, 1:
+					m = smf.MetaTempo(float64(r.Range(40, 240)))
+				case 2:
+					m = smf.MetaText("rit.")
+				default:
+					m = []byte{0xF0, 0x7D, 0x01, 0xF7}
+				}
+				s.evs = append(s.evs, c20Event{bar: bar, track: host.track, pos: uint8(r.Intn(int(lens[bar]))), dur: 0, msg: m})
+			}
 		}
 		hashSong(c, s)
 		checkSong(c, s)
